@@ -34,7 +34,6 @@ def run(ctx):
     res.rule += ("; slot driver: max_connections in {1,2,5}: open until refused (served = a probe line is answered, refused = "
                  "closed without a word), never more than m served, end random subsets by 11 kinds of ending (registered or "
                  "not, close/RST/QUIT/mid-line/invalid UTF-8/half-close/KILL), reopen: exactly m are served again")
-    common.run_big(ctx, res, ("C19",))
     for r in results[:3]:
         if r.get("tail"):
             res.add_sample({"episode_seed": r["seed"], "last_commands": r["tail"]})
